@@ -253,8 +253,8 @@ class C11(Property):
         "Module.from_json re-adds components through add_component: modelled as the abstract predicate "
         "`ModRules.accepts` (property C14 owns it); the driver instantiates it with `accepts = true` and the "
         "correspondence runs the real re-adding on modules built by the real build_modules_for_cds/combine_modules",
-        "text forms str(location)/location_from_string and str(int)/int(text) inside qualifiers: the round trip is a "
-        "hypothesis of the protocluster theorems (`Proto.textOk`, evaluated on every case as the scope flag)",
+        "text forms inside qualifiers / TTA codons: str(location)/location_from_string is proved (C04.string_roundtrip) "
+        "for exact positions; fuzzy positions (<5, >9) are not generated",
         "JSON values of an unexpected type, NaN/inf scores, extra qualifiers on protoclusters, T2PKS qualifiers and "
         "sideloaded protoclusters inside rule results are outside the modelled domain and not generated",
         "get_ruleset(options).get_rule_names() is an input of the model (read from the real rule files per case)",
